@@ -181,10 +181,10 @@ theorem after_setNode {inp : Input} {s : Sys} {n : Name} {nd x : Node} (h : Afte
   · rw [stOf_setNode_same hn hst]; exact h.cnt
 
 theorem after_newNode {inp : Input} {s : Sys} {d : Name} {td : TDef} (anc : List Name) (h : AfterInv inp s)
-    (hd : s.nodes d = none) (ht : s.tasks d = some td) : AfterInv inp (setNode s d (mkNode td anc)) := by
-  have hf : finOf (setNode s d (mkNode td anc)) = finOf s := by
+    (hd : s.nodes d = none) (ht : s.tasks d = some td) : AfterInv inp (setNode s d (mkNodeI s₀ d₀ td anc)) := by
+  have hf : finOf (setNode s d (mkNodeI s₀ d₀ td anc)) = finOf s := by
     funext k; unfold finOf; rw [stOf_setNode]; split
-    · rename_i e; subst e; simp [stOf, hd, mkNode]
+    · rename_i e; subst e; simp [stOf, hd, mkNodeI, mkNode]
     · rfl
   constructor
   · intro k nd' hk
@@ -192,14 +192,14 @@ theorem after_newNode {inp : Input} {s : Sys} {d : Name} {td : TDef} (anc : List
     simp only [setNode] at hk
     split at hk
     · cases hk
-      exact ⟨⟨fun x hx => Or.inl hx, fun hpc => by simp [mkNode] at hpc⟩, h.tab d td ht⟩
+      exact ⟨⟨fun x hx => Or.inl hx, fun hpc => by simp [mkNodeI, mkNodeI, mkNode] at hpc⟩, h.tab d td ht⟩
     · exact h.node k nd' hk
   · exact h.tab
   · intro k hk; rw [hf] at hk; exact h.rep k hk
   · exact h.aft
-  · have : stOf (setNode s d (mkNode td anc)) = stOf s := by
+  · have : stOf (setNode s d (mkNodeI s₀ d₀ td anc)) = stOf s := by
       funext k; rw [stOf_setNode]; split
-      · rename_i e; subst e; simp [stOf, hd, mkNode]
+      · rename_i e; subst e; simp [stOf, hd, mkNodeI, mkNode]
       · rfl
     rw [this]; exact h.cnt
 
@@ -264,11 +264,11 @@ theorem after_genStep {inp : Input} {s : Sys} {n : Name} {nd : Node} (h : AfterI
     | some td =>
       simp only []
       have hnd : n ≠ d := by intro e; subst e; rw [hn] at hd; cases hd
-      have h1 := after_newNode (nd.anc ++ [d]) h hd ht
-      have hn' : (setNode s d (mkNode td (nd.anc ++ [d]))).nodes n = some nd := by simp [setNode, hnd, hn]
-      have hf : finOf (setNode s d (mkNode td (nd.anc ++ [d]))) = finOf s := by
+      have h1 := after_newNode (s₀ := s) (d₀ := d) (nd.anc ++ [d]) h hd ht
+      have hn' : (setNode s d (mkNodeI s d td (nd.anc ++ [d]))).nodes n = some nd := by simp [setNode, hnd, hn]
+      have hf : finOf (setNode s d (mkNodeI s d td (nd.anc ++ [d]))) = finOf s := by
         funext k; unfold finOf; rw [stOf_setNode]; split
-        · rename_i e; subst e; simp [stOf, hd, mkNode]
+        · rename_i e; subst e; simp [stOf, hd, mkNodeI, mkNode]
         · rfl
       have h2 := after_setNode (x := { nd with pc := .taskIter ds }) h1 hn' rfl (by rw [hf]; exact hx.1) hx.2
       exact h2.congr rfl rfl rfl
